@@ -105,7 +105,7 @@ ParValid(cls, par) == (\A f \in FieldNames(cls) : ValidValue(KindOf(cls, f), par
 (* ---------------- meta / visual vocabularies ---------------- *)
 MetaKeys == {"label", "include", "tag"}                 \* sample of the documented RegionMeta vocabulary
 VisualKeys == {"color", "linewidth", "fontsize"}
-BadKeys == {"foo"}
+BadKeys == {"foo", "Label", "COLOR"}        \* incl. keys that differ from a documented one only in letter case
 KeyTokens(which) == IF which = "meta" THEN MetaKeys \cup BadKeys \cup {"color"} ELSE VisualKeys \cup BadKeys \cup {"label", "width"}
 Canon(which, k) == IF which = "visual" /\ k = "width" THEN "linewidth" ELSE k       \* documented alias
 KeyOK(which, k) == Canon(which, k) \in (IF which = "meta" THEN MetaKeys ELSE VisualKeys)
